@@ -1,4 +1,6 @@
 """C16 — strict mode raises ParseError exactly when a parse error exists."""
+import io
+
 from h5 import gen, lean, wire
 
 ID = "C16"
@@ -15,26 +17,96 @@ RULE = ("strict vs lenient on seeded soup + EOF-truncated soup (every prefix of 
         "non-trivial = the lenient parse records at least one error; distinct by (input, mode)")
 
 
+class _Src(io.StringIO):
+    """the input as a text stream that remembers whether a read came back empty (= the input stream hit EOF and reset
+    its chunk); html5lib wraps a str in a StringIO itself, so the code path is the same"""
+    eof = False
+
+    def read(self, n=-1):
+        d = io.StringIO.read(self, n)
+        if d == "" and n != 0:
+            self.eof = True
+        return d
+
+
+def _observe_unget():
+    """count, per stream object, the unget() calls that take the 'prepend to the chunk' branch (chunkOffset == 0):
+    after EOF (the recorded C16 defect) and before EOF (a different, stream-level matter).  Observation only: the
+    original method is called unchanged."""
+    from html5lib import _inputstream
+    cls = _inputstream.HTMLUnicodeInputStream
+    if getattr(cls.unget, "_h5v", False):
+        return
+    orig = cls.unget
+
+    def unget(self, char):
+        if char is not _inputstream.EOF and self.chunkOffset == 0:
+            if getattr(self.dataStream, "eof", False):
+                self._h5v_dup_eof = getattr(self, "_h5v_dup_eof", 0) + 1
+            else:
+                self._h5v_dup_other = getattr(self, "_h5v_dup_other", 0) + 1
+        return orig(self, char)
+    unget._h5v = True
+    cls.unget = unget
+
+
+_P = []
+
+
+def _parser_with_snapshots():
+    import html5lib
+    if not _P:
+        class P(html5lib.HTMLParser):
+            """records, for every parse error, how many characters were pushed back onto an empty chunk after EOF so
+            far and how many characters are still unread in the chunk"""
+            def parseError(self, errorcode="XXX-undefined-error", datavars=None):
+                st = self.tokenizer.stream
+                self.snaps.append((getattr(st, "_h5v_dup_eof", 0), getattr(st, "_h5v_dup_other", 0),
+                                   st.chunkSize - st.chunkOffset, bool(getattr(st.dataStream, "eof", False))))
+                return html5lib.HTMLParser.parseError(self, errorcode, datavars)
+        _P.append(P)
+    p = _P[0]()
+    p.snaps = []
+    return p
+
+
+def eof_unget_explains(nl, pos, snap):
+    """the recorded defect and nothing else: the error was recorded after the stream hit EOF, `dup` characters had been
+    pushed back onto the emptied chunk (each is counted a second time), and the recorded position is exactly the true
+    position (end of input minus the characters still unread) on the last line with the column moved right by `dup`"""
+    dup, other, pending, eof = snap
+    if not eof or dup < 1 or other:
+        return False
+    idx = len(nl) - pending
+    if idx < 0:
+        return False
+    line = nl.count("\n", 0, idx) + 1
+    col = idx - (nl.rfind("\n", 0, idx) + 1)
+    return line == nl.count("\n") + 1 and pos == (line, col + dup)
+
+
 def run_one(ctx, text, fragment):
     import html5lib
     from html5lib.html5parser import ParseError
     from html5lib.constants import E
     kw = {}
-    p = html5lib.HTMLParser()
+    _observe_unget()
+    p = _parser_with_snapshots()
     try:
         if fragment:
-            p.parseFragment(text, container=fragment)
+            p.parseFragment(_Src(text), container=fragment)
         else:
-            p.parse(text)
+            p.parse(_Src(text))
     except Exception as e:
         # exceptions in lenient mode belong to C03; recorded there
         return
     errs = list(p.errors)
+    snaps = list(p.snaps)
     ctx.case("strict-vs-lenient", "%s|%s" % (fragment, text), nontrivial=bool(errs),
              sample={"input": text[:80], "fragment": fragment, "errors": [e[1] for e in errs[:3]]} if errs else None)
     nl = text.replace("\r\n", "\n").replace("\r", "\n")
     lines = nl.split("\n")
-    for (pos, code, dv) in errs:
+    for k, (pos, code, dv) in enumerate(errs):
         if code not in E:
             ctx.fail("code-without-template:%s" % code, "recorded error code has no message template", {"input": text, "code": code})
             continue
@@ -47,8 +119,9 @@ def run_one(ctx, text, fragment):
         if not (1 <= line <= len(lines) and 0 <= col <= len(lines[line - 1])):
             # known: after EOF, characters pushed back at chunk offset 0 are counted twice (columns past the end of the
             # LAST line); anything else (wrong line, or past the end of an inner line) is a different failure
-            cls = "position-past-end-of-last-line-after-eof-unget" if line == len(lines) and col > len(lines[-1]) \
-                else "position-outside-input"
+            known = line == len(lines) and col > len(lines[-1]) and len(snaps) == len(errs) and \
+                eof_unget_explains(nl, tuple(pos), snaps[k])
+            cls = "position-past-end-of-last-line-after-eof-unget" if known else "position-outside-input"
             ctx.fail(cls, "recorded error position lies outside the input", {"input": text, "pos": pos, "code": code})
     ps = html5lib.HTMLParser(strict=True)
     raised = None
@@ -120,7 +193,8 @@ def run(ctx):
             ctx.fail("non-conforming-reference-without-error", "a numeric reference the standard reports as an error records none",
                      {"input": text})
     from html5lib.constants import entities as _ents
-    for name in ctx.rng.sample(sorted(k for k in _ents if k.endswith(";")), ctx.scale(200, 2231)):
+    _semi = sorted(k for k in _ents if k.endswith(";"))
+    for name in ctx.rng.sample(_semi, min(len(_semi), ctx.scale(200, 2231))):
         text = '<!DOCTYPE html><html><head><title>t</title></head><body><p title="x&%sy">a&%sb</p></body></html>' % (name, name)
         p = html5lib.HTMLParser()
         p.parse(text)
